@@ -20,6 +20,11 @@ RULE = (
 
 MODES = ["grad", "deriv", "jac", "vjp", "jvp", "egrad", "vag", "hvp_like"]
 PMODES = ["jvp_primal", "vjp_primal", "vag_primal", "gaa_aux"]
+HMODES = ["htp_arg1", "hvp_arg2", "make_hvp_arg1", "hessian_arg1"]
+
+
+class _Boom(Exception):
+    pass
 REV = {"grad", "jac", "vjp", "egrad", "vag"}
 
 
@@ -41,6 +46,11 @@ def ops():
         "vjp_primal": lambda f: (lambda x: make_vjp(f)(x)[1]),
         "vag_primal": lambda f: (lambda x: value_and_grad(f)(x)[0]),
         "gaa_aux": lambda f: (lambda x: autograd.grad_and_aux(lambda y: (f(y), f(y)))(x)[1]),
+        # second derivative through the Hessian-product operators with a non-default argnum and extra arguments
+        "htp_arg1": lambda f: (lambda x: autograd.hessian_tensor_product(lambda k, y: f(y) + k * y, 1)(0.5, x, 1.0)),
+        "hvp_arg2": lambda f: (lambda x: autograd.hessian_vector_product(lambda k, j, y, s=1.0: s * (f(y) + k * y * j), 2)(0.5, 2.0, x, 1.0, s=1.0)),
+        "make_hvp_arg1": lambda f: (lambda x: autograd.make_hvp(lambda k, y: f(y) + k * y, 1)(0.5, x)[0](1.0)),
+        "hessian_arg1": lambda f: (lambda x: autograd.hessian(lambda k, y: f(y) + k * y, 1)(0.5, x)),
     }
 
 
@@ -64,8 +74,12 @@ def gen(c, vars_, depth, counter):
         return (c.choice(["sin", "exp", "tanh", "cos"]), ("*", ("c", 0.5), gen(c, vars_, depth - 1, counter)))
     if k == 9:
         return ("pow", gen(c, vars_, depth - 1, counter), c.choice([2, 3]))
+    if k == 10 and c.chance(1, 3):
+        return ("F", gen(c, vars_, depth - 1, counter))
     counter[0] += 1
     y = "y%d" % counter[0]
+    if k == 11 and c.chance(1, 3):
+        return ("H", HMODES[c.int(0, len(HMODES) - 1)], y, gen(c, vars_ + [y], depth - 1, counter), gen(c, vars_, depth - 2, counter))
     if k == 12:
         return ("P", PMODES[c.int(0, len(PMODES) - 1)], y, gen(c, vars_ + [y], depth - 1, counter), gen(c, vars_, depth - 2, counter))
     mode = MODES[c.int(0, len(MODES) - 1)]
@@ -86,7 +100,21 @@ def comp(e, env, OPS, np):
         return comp(e[1], env, OPS, np) / comp(e[2], env, OPS, np)
     if t == "pow":
         return comp(e[1], env, OPS, np) ** e[2]
-    if t in ("D", "P"):
+    if t == "F":
+        # an inner differentiation fails and is caught here, inside whatever differentiations are running; then carry on
+        import autograd
+
+        def boom(y):
+            z = np.sin(y)
+            raise _Boom()
+
+        for op in (autograd.grad, lambda g: (lambda x: autograd.make_jvp(g)(x)(1.0))):
+            try:
+                op(boom)(0.3)
+            except _Boom:
+                pass
+        return comp(e[1], env, OPS, np)
+    if t in ("D", "P", "H"):
         _, mode, var, body, at = e
         f = lambda y: comp(body, {**env, var: y}, OPS, np)
         return OPS[mode](f)(comp(at, env, OPS, np))
@@ -101,10 +129,14 @@ def closure_patterns(e, bound=()):
         return out
     if t == "pow":
         return closure_patterns(e[1], bound)
-    if t in ("D", "P"):
+    if t == "F":
+        return {"after_caught_failure"} | closure_patterns(e[1], bound)
+    if t in ("D", "P", "H"):
         _, mode, var, body, at = e
         if t == "P":
             out.add("primal_through_operator")
+        if t == "H":
+            out.add("hessian_operator")
         used = [b for b in bound if S.mentions(body, b)]
         if not bound:
             pass
@@ -133,8 +165,10 @@ def modeseq(e, acc=None):
         return acc
     if t == "pow":
         return modeseq(e[1], acc)
-    if t in ("D", "P"):
-        acc.append("r" if (e[1] in REV or e[1] in ("vjp_primal", "vag_primal", "gaa_aux")) else "f")
+    if t == "F":
+        return modeseq(e[1], acc)
+    if t in ("D", "P", "H"):
+        acc.append("r" if (e[1] in REV or e[1] in ("vjp_primal", "vag_primal", "gaa_aux") or t == "H") else "f")
         modeseq(e[3], acc)
         modeseq(e[4], acc)
         return acc
